@@ -207,6 +207,31 @@ LITS = ["a", "b", "ab", "abc", "v1", "api", "ab:c", "a*b", "\\:a", "a.b", "a~b",
 SEG_VALUES = gen_repo.SEG_VALUES + ["v1", "42", "a%3Fb", "%C3%A9", "a%3Ab", "A%2fB", "x%2Fy%2Fz", "%7Euser", "a,b;c=d", "(x)"]
 
 
+# segments with octets that may not stand in a path (the request context shows them percent-encoded; an encoded slash
+# next to them stays what it is), the placeholders a former `unescape` used, UTF-8 written as bytes (one character per
+# byte, as the harness reads it)
+RAW_VALUES = ["a^b", "a|b", "{a}", "a%2Fb^", "%2f|", "\"a\"", "<a>", "`a", "a%2Fb{", "a\\b", "$$$escaped-slash$$$",
+              "$$$escaped-lc-slash$$$", "\u00c3\u00a9", "caf\u00c3\u00a9%2fb", "\u00e2\u0082\u00ac", "%41<x>", "a%20b|c"]
+
+
+def wide_path(p):
+    """mirror of Spec.validPath: leading slash, no `?`, no blank / control octet, well-formed escapes"""
+    if not p.startswith("/") or "?" in p:
+        return False
+    i = 0
+    while i < len(p):
+        c = p[i]
+        if c == "%":
+            if len(p) - i < 3 or p[i + 1] not in HEX or p[i + 2] not in HEX:
+                return False
+            i += 3
+            continue
+        if ord(c) <= 0x20 or ord(c) == 0x7f:
+            return False
+        i += 1
+    return True
+
+
 def gen_exprs(rng):
     """path expressions whose wildcard names are consistent per depth, so that the rule sets load"""
     depth_names = [rng.choice(["x", "id", "a", "*", "name"]) for _ in range(4)]
@@ -234,13 +259,14 @@ def gen_exprs(rng):
     return sorted(set(exprs))
 
 
-def instantiate(rng, expr, exact):
+def instantiate(rng, expr, exact, raw=False):
+    values = SEG_VALUES + (RAW_VALUES * 3 if raw else [])
     out = []
     for t in expr.split("/")[1:]:
         if t.startswith(":"):
-            out.append(rng.choice(SEG_VALUES))
+            out.append(rng.choice(values))
         elif t.startswith("*"):
-            out.append("/".join(rng.choice(SEG_VALUES) for _ in range(rng.choice([1, 1, 2, 3]))))
+            out.append("/".join(rng.choice(values) for _ in range(rng.choice([1, 1, 2, 3]))))
         else:
             out.append(t.replace("\\", ""))
     if not exact:
@@ -268,6 +294,12 @@ def gen_rule(rng, rid, exprs):
         r["hosts"] = []
     if rng.random() < 0.8:
         r["scheme"] = ""
+    # a methods list that allows nothing is a configuration error (the whole rule set is rejected): rare here
+    ms = r["methods"]
+    allowed = {m for m in (gen_repo.METHODS + ["HEAD", "CONNECT", "OPTIONS", "TRACE"] if "ALL" in ms else ms)
+               if not m.startswith("!") and m != "ALL"} - {m[1:] for m in ms if m.startswith("!")}
+    if ms and not allowed and rng.random() < 0.9:
+        r["methods"] = ["ALL"] + [m for m in ms if m.startswith("!")][:2]
     seen = set()
     routes = []
     for rt in r["routes"]:
@@ -280,15 +312,20 @@ def gen_rule(rng, rid, exprs):
     return r
 
 
-def gen_request(rng, rules, exprs, wellformed=True):
+def gen_request(rng, rules, exprs, wellformed=True, raw=False):
     target = rng.choice(rules)
     for _ in range(30):
         path = instantiate(rng, rng.choice(target["routes"])["path"] if rng.random() < 0.85 else rng.choice(exprs),
-                           rng.random() < 0.8)
-        if not wellformed or valid_path(path):
+                           rng.random() < 0.8, raw)
+        if raw:
+            if rng.random() < 0.3:
+                path += rng.choice(["\"q", "<x>", "|", "^", "{a}", "`"])
+            if wide_path(path) and not valid_path(path):
+                break
+        elif not wellformed or valid_path(path):
             break
     else:
-        path = "/a"
+        path = "/a^" if raw else "/a"
     query = rng.choice(QUERIES)
     headers = []
     for _ in range(rng.choice([0, 1, 2, 2, 3, 4])):
@@ -319,14 +356,16 @@ def gen_request(rng, rules, exprs, wellformed=True):
     return req, dec
 
 
-def gen_case(rng, dup_p=0.12, wellformed=True):
+def gen_case(rng, dup_p=0.12, wellformed=True, raw=False):
+    """wellformed: a logical request the theorems cover; raw (with wellformed): its path contains octets that may not
+    stand in a path; not wellformed: outside the hypotheses (two Cookie lines, hop headers)"""
     exprs = gen_exprs(rng)
     rules = []
     for i in range(rng.choice([1, 2, 2, 3, 4])):
         rules.append(gen_rule(rng, "r%d" % (i + 1), exprs))
-    req, dec = gen_request(rng, rules, exprs, wellformed)
+    req, dec = gen_request(rng, rules, exprs, wellformed, raw)
     if not wellformed:
-        w = rng.choice(["cookie2", "forwarded", "forwarded", "path"])
+        w = rng.choice(["cookie2", "forwarded", "forwarded"])
         if w == "cookie2":
             req["headers"].insert(0, ["Cookie", gen_cookie_line(rng).strip()])
             req["headers"].append(["cookie", gen_cookie_line(rng).strip()])
@@ -334,8 +373,6 @@ def gen_case(rng, dup_p=0.12, wellformed=True):
             req["headers"].insert(rng.randrange(len(req["headers"]) + 1),
                                   [rng.choice(UNTRUSTED), rng.choice(["10.0.0.1", "https", "evil.example.com", "/admin",
                                                                       "for=10.0.0.1;proto=https", "DELETE"])])
-        else:
-            req["path"] = req["path"] + rng.choice(["\"q", "<x>", "|", "^", "{a}", "`"])
     hdr_names = [n for n, _ in req["headers"]] + ["Host", "host", "X-Foo", "x-foo", "Content-Type", "X-Missing"]
     hdr_names = [rng.choice([n, n.lower(), n.upper(), canon(n)]) for n in hdr_names]
     ck_names = COOKIE_NAMES
